@@ -3269,4 +3269,106 @@ Qed.
 
 End VV.
 
+(* ======================================================================== *)
+(* Part Q : restore_ind                                                      *)
+Section RestoreInd.
+Variable sl sl' : list slinfo.       (* before / after restoring ind *)
+Variable ind : ix.
+Hypothesis Hrem : forall j, In j (removed sl) <-> j = ind \/ In j (removed sl').
+Hypothesis Hfresh : ~ In ind (removed sl').
+Hypothesis Hinc : incl (output n) (concat (inputs n)).
+
+Lemma spec_old S j : spec_count n sl S j = if Nat.eqb j ind then 0 else spec_count n sl' S j.
+Proof. apply (spec_more sl' sl ind Hrem). Qed.
+Lemma cnt_eq_raw S : cnt n sl' S ind = cnt_raw n S ind.
+Proof.
+  induction S as [|k S IH]; cbn [cnt cnt_raw]; [reflexivity|]. rewrite IH. f_equal.
+  unfold term_sl. rewrite occ_filter. assert (E : memb ind (removed sl') = false) by (apply memb_false, Hfresh).
+  rewrite E. reflexivity.
+Qed.
+Lemma spec_union_zero l r : inrange n (l ++ r) -> spec_count n sl' l ind = 0 -> spec_count n sl' r ind = 0 ->
+  spec_count n sl' (l ++ r) ind = 0.
+Proof.
+  intros HR. pose proof (cnt_le_appear n sl' _ ind HR) as Hle. rewrite cnt_app in Hle.
+  unfold spec_count. rewrite cnt_app.
+  repeat match goal with |- context [?a <? ?b] => destruct (Nat.ltb_spec a b) end; lia.
+Qed.
+Lemma root_ind_involved l r : Permutation (seq 0 N) (l ++ r) -> In ind (output n) ->
+  0 < spec_count n sl' l ind + spec_count n sl' r ind.
+Proof.
+  intros HP Hout'.
+  assert (Hc : cnt n sl' l ind + cnt n sl' r ind = occ (concat (inputs n)) ind).
+  { rewrite <- cnt_app, <- (cnt_perm n sl' _ _ ind HP), cnt_eq_raw. apply cnt_raw_all. }
+  assert (Hpos : 0 < occ (concat (inputs n)) ind) by (apply occ_pos, Hinc, Hout').
+  assert (Hap : occ (concat (inputs n)) ind < appear n ind).
+  { rewrite appear_occ. assert (0 < occ (output n) ind) by (apply occ_pos, Hout'). lia. }
+  unfold spec_count. repeat match goal with |- context [?a <? ?b] => destruct (Nat.ltb_spec a b) end; lia.
+Qed.
+
+(* a node none of whose children carries the restored index keeps valid caches *)
+Lemma unaffected_node ch p i l r ll lr lg inv :
+  children_ok ch -> nget p ch = Some (l, r) -> good_node p ->
+  node_inv ch sl p i -> i_legs i = Some lg -> i_involved i = Some inv ->
+  slegs_ok n sl' l ll -> slegs_ok n sl' r lr -> lmem ind ll = false -> lmem ind lr = false ->
+  node_inv ch sl' p i.
+Proof.
+  intros Hc Ech Gp (A&B&C&D) Hlg Hinv [Wl Gl] [Wr Gr] El Er.
+  pose proof (proj2 Hc) as Hc'. destruct (Hc' p l r Ech) as (Gl' & Gr' & HR & HP).
+  assert (Zl : spec_count n sl' l ind = 0).
+  { rewrite <- Gl. apply lget0_notin, lmem_false_notin, El. }
+  assert (Zr : spec_count n sl' r ind = 0).
+  { rewrite <- Gr. apply lget0_notin, lmem_false_notin, Er. }
+  assert (Zp : spec_count n sl' p ind = 0).
+  { rewrite (spec_count_perm n sl' _ _ ind HP). apply spec_union_zero; assumption. }
+  assert (Hspec : forall S, spec_count n sl' S ind = 0 -> forall j, spec_count n sl S j = spec_count n sl' S j).
+  { intros S Z j. rewrite spec_old. destruct (Nat.eqb_spec j ind) as [->|]; [symmetry; exact Z|reflexivity]. }
+  (* involved *)
+  assert (Hinv_ok : inv_ok n sl' l r inv).
+  { destruct (B inv Hinv) as [[E1 _]|(l2 & r2 & E2 & [W G])].
+    - exfalso. apply (leaf_not_parent ch p l r Hc Ech E1).
+    - rewrite Ech in E2. injection E2 as <- <-. split; [exact W|]. intros j. rewrite G, (Hspec l Zl), (Hspec r Zr). reflexivity. }
+  (* legs *)
+  assert (Hlegs_ok : legs_ok n sl' p lg).
+  { pose proof (A lg Hlg) as Hl. unfold legs_ok in *. destruct (Nat.eqb_spec (length p) N) as [EN|EN].
+    - destruct Hl as [ND G]. split; [exact ND|]. intros j. rewrite G, (root_legs_more sl' sl ind Hrem).
+      destruct (Nat.eqb_spec j ind) as [->|]; [|reflexivity].
+      (* the restored index cannot be an output index here *)
+      destruct (lget ind (root_legs n sl')) eqn:Eo; [|reflexivity]. exfalso.
+      assert (Hin : In ind (lkeys (root_legs n sl'))) by (apply lget_in_keys; congruence).
+      unfold root_legs, lkeys in Hin. rewrite map_map in Hin. cbn in Hin. rewrite map_id in Hin. apply filter_In in Hin.
+      assert (HPall : Permutation (seq 0 N) (l ++ r)).
+      { apply Permutation_trans with p; [|exact HP]. apply NoDup_Permutation_bis; [apply seq_NoDup|rewrite seq_length; lia|].
+        intros k Hk. destruct Gp as [[NDp Hb] _].
+        assert (Hincl : incl p (seq 0 N)) by (intros a Ha; apply in_seq; specialize (Hb a Ha); lia).
+        assert (HPp : Permutation p (seq 0 N)) by (apply NoDup_Permutation_bis; [exact NDp|rewrite seq_length; lia|exact Hincl]).
+        apply (Permutation_in _ (Permutation_sym HPp)), Hk. }
+      pose proof (root_ind_involved l r HPall (proj1 Hin)). lia.
+    - destruct Hl as [W G]. split; [exact W|]. intros j. rewrite G. apply (Hspec p Zp). }
+  unfold node_inv. repeat split.
+  - intros lg' E. rewrite Hlg in E. injection E as <-. exact Hlegs_ok.
+  - intros inv' E. rewrite Hinv in E. injection E as <-. right. exists l, r. split; assumption.
+  - intros z Hz lg' Hlg'. rewrite (C z Hz lg (A lg Hlg)). apply (legs_ok_size_unique n sl' _ p); assumption.
+  - intros z Hz. right. exists l, r. split; [exact Ech|]. intros inv' Hinv'.
+    destruct (D z Hz) as [[E1 _]|(l2 & r2 & E2 & F)].
+    + exfalso. apply (leaf_not_parent ch p l r Hc Ech E1).
+    + rewrite Ech in E2. injection E2 as <- <-.
+      destruct (B inv Hinv) as [[E1 _]|(l3 & r3 & E3 & Hok)]; [exfalso; apply (leaf_not_parent ch p l r Hc Ech E1)|].
+      rewrite Ech in E3. injection E3 as <- <-. rewrite (F inv Hok). apply (inv_ok_size_unique n sl' _ l r); assumption.
+Qed.
+
+(* a leaf whose term does not carry the index *)
+Lemma leaf_node_same_rev ch k i : children_ok ch -> ~ In ind (nth k (inputs n) []) -> node_inv ch sl [k] i -> node_inv ch sl' [k] i.
+Proof.
+  intros Hc Hn (A&B&C&D).
+  assert (Hiff : forall lg, legs_ok n sl' [k] lg <-> legs_ok n sl [k] lg) by (intros lg; apply (leaf_legs_ok_same sl' sl ind Hrem k lg Hn)).
+  unfold node_inv. repeat split.
+  - intros lg Hl. apply Hiff, A, Hl.
+  - intros inv Hi. destruct (B inv Hi) as [Hl|(l & r & E & _)]; [left; exact Hl|].
+    exfalso. apply (leaf_not_parent ch [k] l r Hc E). reflexivity.
+  - intros z Hz lg Hl. apply (C z Hz). apply Hiff, Hl.
+  - intros z Hz. destruct (D z Hz) as [Hl|(l & r & E & _)]; [left; exact Hl|].
+    exfalso. apply (leaf_not_parent ch [k] l r Hc E). reflexivity.
+Qed.
+End RestoreInd.
+
 End Inv.
